@@ -481,7 +481,7 @@ func TestVerifC16Calls(t *testing.T) {
 	outcomes := []struct {
 		code codes.Code
 		msg  string
-	}{{codes.OK, ""}, {codes.NotFound, "x"}, {codes.Internal, "boom: ünï"}, {codes.Code(42), "custom"}}
+	}{{codes.OK, ""}, {codes.NotFound, "x"}, {codes.Internal, "boom: ünï"}, {codes.Code(42), "custom"}, {codes.ResourceExhausted, "disk is 100% full: %s %d %!v(MISSING)"}}
 	kinds := []string{"unary", "client-stream", "server-stream", "bidi"}
 	n := 0
 	for _, k := range kinds {
@@ -609,7 +609,7 @@ func TestVerifC16Calls(t *testing.T) {
 // connection reuse and clean-up across table changes (explicit-state BFS)
 func c16History(r *c16Rig) {
 	L := ev.Begin("C16", "c16-history", "model_checking",
-		"explicit-state BFS on the same real stack: state = (backend B in the table?, pooled connection to A?, to B?); events: call routed to A, call routed to B (dsthost), remove / re-add backend B in the table, one pass of the pool's clean-up loop (its time.Sleep is owned by the harness), backend B restart, backend B redeployed on the same address with the other transport (grpc:// <-> grpcs://, table follows); invariants: a call to a routed backend succeeds, one to an unrouted backend gets NotFound without contacting it; at most one connection per backend while it stays routed and up (accept counter at the backend); after B left the table and a clean-up pass its connection is closed; a call after re-adding B succeeds. non-trivial = transition that changes the table or needs a (re)connect")
+		"explicit-state BFS on the same real stack: state = (backend B in the table?, pooled connection to A?, to B?); events: call routed to A, call routed to B (dsthost), remove / re-add backend B in the table, one pass of the pool's clean-up loop (its time.Sleep is owned by the harness), backend B restart, backend B redeployed on the same address with the other transport (grpc:// <-> grpcs://, table follows); plus one outage scenario (B down while 4 calls arrive, then back: one connection); invariants: a call to a routed backend succeeds, one to an unrouted backend gets NotFound without contacting it; at most one connection per backend while it stays routed and up (accept counter at the backend); after B left the table and a clean-up pass its connection is closed; a call after re-adding B succeeds. non-trivial = transition that changes the table or needs a (re)connect")
 	host := "grpc.example"
 	both := func() string {
 		if r.b.tls {
@@ -771,6 +771,58 @@ func c16History(r *c16Rig) {
 		if len(h) == maxDepth && h[0] == 1 && h[1] == 2 {
 			L.Sample(map[string]interface{}{"history": names})
 		}
+	}
+	// outage: B stays routed but is down for a while, calls keep arriving, then it comes back on the
+	// same address. However many calls failed meanwhile, fabio holds one connection to B.
+	{
+		route.SetTable(make(route.Table))
+		r.cleanupPass()
+		waitFor(func() bool { return atomic.LoadInt64(&r.a.open) == 0 && atomic.LoadInt64(&r.b.open) == 0 })
+		if r.b.tls {
+			restartB(false)
+		}
+		r.setTable(both())
+		callB := func() c16Result {
+			r.b.mu.Lock()
+			r.b.script, r.b.calls = c16Script{replies: [][]byte{{1}}}, nil
+			r.b.mu.Unlock()
+			return r.call(c16Call{kind: "unary", reqs: [][]byte{{1}}, md: metadata.Pairs("dsthost", host), timeout: 5 * time.Second})
+		}
+		L.Case()
+		L.NontrivialKey("outage")
+		transitions += 7
+		d := map[string]interface{}{"history": []string{"call-B", "stop-B", "call-B x4 (backend down)", "start-B", "call-B until it succeeds", "wait 3s for reconnect back-offs"}}
+		if res := callB(); res.code != codes.OK {
+			d["status"] = fmt.Sprint(res.code, res.msg)
+			L.Violation("call-to-routed-backend-failed", d)
+		}
+		addr := r.b.addr
+		r.b.srv.Stop()
+		waitFor(func() bool { return atomic.LoadInt64(&r.b.open) == 0 })
+		var during []string
+		for i := 0; i < 4; i++ {
+			during = append(during, callB().code.String())
+		}
+		d["statuses_while_down"] = during
+		acc0 := atomic.LoadInt64(&r.b.accepts)
+		r.b.start(addr)
+		ok := false
+		for i := 0; i < 600 && !ok; i++ { // 60 s guard: grpc-go reconnects on its own back-off schedule
+			if callB().code == codes.OK {
+				ok = true
+			} else {
+				time.Sleep(100 * time.Millisecond)
+			}
+		}
+		if !ok {
+			L.Violation("call-to-routed-backend-failed/after-outage", d)
+		}
+		time.Sleep(3 * time.Second) // lets every connection opened during the outage finish its reconnect back-off; nothing is asserted on time
+		if n := atomic.LoadInt64(&r.b.accepts) - acc0; ok && n != 1 {
+			d["connections_accepted_by_B_after_it_came_back"] = n
+			L.Violation("connection-not-reused-per-backend/backend-outage", d)
+		}
+		L.Sample(d)
 	}
 	L.Set("cleanup_loop_controlled_by_harness", r.controlled)
 	L.AddStates(int64(len(states)))
